@@ -90,6 +90,8 @@ func main() {
 	outCoq := flag.String("coq", "", "output Coq file (MapRanges.v)")
 	classes := flag.String("classes", "", "classification file (tools/checks/c05_sites.json)")
 	goBin := flag.String("go", "go", "go binary used for `go list`")
+	libPrefix := flag.String("libprefix", "", "library mode: instead of the listed packages walk their DEPENDENCIES whose import path "+
+		"starts with this prefix (e.g. github.com/sarchlab/akita/v4/), read-only from the module cache")
 	flag.Parse()
 	patterns := flag.Args()
 	if len(patterns) == 0 {
@@ -115,7 +117,13 @@ func main() {
 	var sites []Site
 	npk, nfiles := 0, 0
 	for _, p := range pkgs {
-		if p.DepOnly || p.Standard {
+		if p.Standard {
+			continue
+		}
+		if *libPrefix == "" && p.DepOnly {
+			continue
+		}
+		if *libPrefix != "" && !(p.DepOnly && strings.HasPrefix(p.ImportPath, *libPrefix)) {
 			continue
 		}
 		if p.Error != nil {
@@ -137,7 +145,10 @@ func main() {
 		if _, err := conf.Check(p.ImportPath, fset, files, info); err != nil {
 			fatal("type-check %s: %v", p.ImportPath, err)
 		}
-		rel, _ := filepath.Rel(*repo, p.Dir)
+		rel, err := filepath.Rel(*repo, p.Dir)
+		if err != nil || strings.HasPrefix(rel, "..") {
+			rel = p.ImportPath // a package outside the repository (module cache)
+		}
 		for _, af := range files {
 			sites = append(sites, walkFile(fset, info, filepath.ToSlash(rel), af)...)
 		}
